@@ -3,13 +3,6 @@ From Coq Require Import ZArith List Bool Arith.
 Import ListNotations.
 Require Import PonyV.Model.C04Expr PonyV.Model.C04Ext PonyV.Proofs.C04ExtProofs.
 
-(* `p.x == f([p.y])`: the list display is marked external whatever its items are, so the call f([p.y]) - which mentions the query
-   variable p - is an external as a whole (path []) and is evaluated in the caller's scope *)
-Theorem C04_marking_refuted :
-  In [] (externals (fun _ => FPlain) [[112]%Z] bad_query) /\ mentions [[112]%Z] bad_query = true /\ wf bad_query = true.
-Proof. exact list_marking_refuted. Qed.
-Print Assumptions C04_marking_refuted.
-
 (* `p.x in [a, *b]`: the starred item is left in the set of externals although it is not an expression *)
 Theorem C04_starred_external_refuted :
   In [1; 1] (externals (fun _ => FPlain) [[112]%Z] starred_query) /\
